@@ -82,7 +82,8 @@ var tmpls = []Tmpl{
 	{ID: "alias_of_named", Self: "named", Target: "named", Units: []string{"type $S = $T"}, Names: []string{"$S"}},
 	{ID: "const_of_const", Self: "const", Target: "const", Units: []string{"const $S uint64 = $T + 1"}, Names: []string{"$S"}},
 	{ID: "global_of_const", Self: "global", Target: "const", Units: []string{"var $S uint64 = $T"}, Names: []string{"$S"}},
-	{ID: "global_of_func", Self: "global", Target: "func", Units: []string{"var $S uint64 = $T()"}, Names: []string{"$S"}},
+	{ID: "global_of_func", Self: "global", Target: "func", Units: []string{"var $S uint64 = $T()"}, Names: []string{"$S"}}, // rejected since 27e05a7 (non-constant initialiser): may-reject
+	{ID: "global_of_const", Self: "global", Target: "const", Units: []string{"var $S uint64 = $T + 1"}, Names: []string{"$S"}},
 	{ID: "global_struct_lit", Self: "global", Target: "struct", Units: []string{"var $S = $T{v: 1}"}, Names: []string{"$S"}},
 	{ID: "method_calls_func", Self: "multi", Target: "func", Units: []string{"type Own$S struct {\n\tv uint64\n}", "func (o Own$S) $S() uint64 {\n\treturn $T() + o.v\n}"}, Names: []string{"Own$S", "Own$S__$S"}},
 	{ID: "method_uses_struct", Self: "multi", Target: "struct", Units: []string{"type Own$S struct {\n\tv uint64\n}", "func (o *Own$S) $S() uint64 {\n\tt := $T{v: o.v}\n\treturn t.v\n}"}, Names: []string{"Own$S", "Own$S__$S"}},
@@ -105,6 +106,8 @@ var tmpls = []Tmpl{
 	{ID: "func_recursive_in_go", Self: "funcp", Target: "func", Units: []string{"func $S(n uint64) {\n\tif n == 0 {\n\t\t$T()\n\t\treturn\n\t}\n\tgo func() {\n\t\t$S(n - 1)\n\t}()\n}"}, Names: []string{"$S"}},
 	{ID: "method_recursive_in_closure", Self: "multi", Target: "func", Units: []string{"type Own$S struct {\n\tv uint64\n}", "func (o *Own$S) $S(n uint64) uint64 {\n\tif n == 0 {\n\t\treturn $T()\n\t}\n\tf := func() uint64 {\n\t\treturn o.$S(n - 1)\n\t}\n\treturn f() + 1\n}"}, Names: []string{"Own$S", "Own$S__$S"}},
 	{ID: "method_recursive_then_calls", Self: "multi", Target: "const", Units: []string{"type Own$S struct {\n\tv uint64\n}", "func (o *Own$S) $S(n uint64) uint64 {\n\tif n == 0 {\n\t\treturn o.v\n\t}\n\treturn o.$S(n-1) + $T\n}"}, Names: []string{"Own$S", "Own$S__$S"}},
+	{ID: "method_value_self", Self: "multi", Target: "func", Units: []string{"type Own$S struct {\n\tv uint64\n}", "func (o *Own$S) $S(n uint64) uint64 {\n\tif n == 0 {\n\t\treturn $T()\n\t}\n\tg := o.$S\n\treturn g(n-1) + 1\n}"}, Names: []string{"Own$S", "Own$S__$S"}},
+	{ID: "alias_receiver_method", Self: "multi", Target: "struct", Units: []string{"type Al$S = $T", "func (a Al$S) $S(k uint64) uint64 {\n\treturn a.v + k\n}", "func use$S(t $T) uint64 {\n\treturn t.$S(1)\n}"}, Names: []string{"Al$S", "$T__$S", "use$S"}},
 	{ID: "method_recursive", Self: "multi", Target: "struct", Units: []string{"type Own$S struct {\n\tv uint64\n}", "func (o *Own$S) $S(n uint64) uint64 {\n\tif n == 0 {\n\t\tt := $T{v: 1}\n\t\treturn t.v\n\t}\n\treturn o.$S(n-1) + 1\n}"}, Names: []string{"Own$S", "Own$S__$S"}},
 }
 
@@ -204,7 +207,7 @@ func mkPkgs(tier string) []Pkg {
 					files["0head.go"] = "package q\n\n" + head + "\n"
 				}
 				id++
-				out = append(out, Pkg{Name: fmt.Sprintf("q%05d", id), Desc: fmt.Sprintf("%s perm=%d layout=%s", desc, pi, lay.id), Files: files, Names: names, NGo: n, MayReject: mayReject})
+				out = append(out, Pkg{Name: fmt.Sprintf("q%05d", id), Desc: fmt.Sprintf("%s perm=%d layout=%s", desc, pi, lay.id), Files: files, Names: names, NGo: n, MayReject: mayReject || strings.Contains(desc, "global_of_func")})
 			}
 		}
 	}
